@@ -626,7 +626,8 @@ class Parse:
             mt = re.compile(pat, sz[2] if len(sz) > 2 else 0).search(window)
             if not mt:
                 raise self.err("delimiter", "regex not found")
-            if cur + mt.end() >= limit:
+            if cur + mt.end() >= limit or (b"$" in pat and cur + mt.end() >= limit - 1):
+                # '$' also matches just BEFORE a trailing newline: such a match depends on the newline being the last byte
                 self.regex_end_touch = True
             if f.get("incl"):
                 vals[store] = raw[cur:cur + mt.end()]
